@@ -2314,32 +2314,40 @@ impl<'ast> Check<'ast> for &'ast Ast<'ast> {
                     body.check(state, ctxt.clone(), visitor, return_type.clone())?;
                 }
 
-                let pat_types = with_pat_types.into_iter().map(|(_, pat_types)| pat_types);
+                // A guarded branch might be skipped at run time although its pattern matches the
+                // argument, when the guard evaluates to `false`. Such a branch must thus not count
+                // when determining which values are handled by the match expression: neither the
+                // enum tags of its pattern nor its wildcard patterns make the other cases go away.
+                //
+                // We proceed in two stages. First, we unify the pattern types of the unguarded
+                // branches with the argument's type, and close the corresponding enum rows: this
+                // gives the type of the values handled by this match expression. Only then we
+                // unify the pattern types of the guarded branches with this type: a guarded branch
+                // can bind variables and refine the cases which are already handled, but it can't
+                // extend them (an enum tag which only appears in guarded branches is an error).
+                let (unguarded, guarded): (Vec<_>, Vec<_>) = with_pat_types
+                    .into_iter()
+                    .map(|(branch, pat_types)| (branch.guard.is_some(), pat_types))
+                    .partition(|(is_guarded, _)| !is_guarded);
 
-                // Unify all the pattern types with the argument's type, and build the list of all open
-                // tail vars
-                let mut enum_open_tails = Vec::with_capacity(
-                    pat_types
-                        .clone()
-                        .map(|pat_type| pat_type.enum_open_tails.len())
-                        .sum(),
-                );
-
-                // Build the list of all wildcard pattern occurrences
-                let mut wildcard_occurrences = HashSet::with_capacity(
-                    pat_types
-                        .clone()
-                        .map(|pat_type| pat_type.wildcard_occurrences.len())
-                        .sum(),
-                );
+                // The list of all wildcard pattern occurrences in unguarded branches
+                let mut wildcard_occurrences = HashSet::new();
 
                 // We don't immediately return if an error occurs while unifying the patterns together.
                 // For error reporting purposes, it's best to first close the tail variables (if
                 // needed), to avoid cluttering the reported types with free unification variables
                 // which are mostly an artifact of our implementation of typechecking pattern matching.
-                let pat_unif_result: Result<(), UnifError> =
-                    pat_types.into_iter().try_for_each(|pat_type| {
-                        arg_type.clone().unify(pat_type.typ, state, &ctxt)?;
+                let mut pat_unif_result: Result<(), UnifError> = Ok(());
+
+                for stage in [unguarded, guarded] {
+                    // The list of all open tail vars of this stage
+                    let mut enum_open_tails = Vec::new();
+
+                    for (is_guarded, pat_type) in stage {
+                        if let Err(err) = arg_type.clone().unify(pat_type.typ, state, &ctxt) {
+                            pat_unif_result = Err(err);
+                            break;
+                        }
 
                         for (id, typ) in pat_type.bindings {
                             visitor.visit_ident(&id, typ.clone());
@@ -2347,14 +2355,20 @@ impl<'ast> Check<'ast> for &'ast Ast<'ast> {
                         }
 
                         enum_open_tails.extend(pat_type.enum_open_tails);
-                        wildcard_occurrences.extend(pat_type.wildcard_occurrences);
 
-                        Ok(())
-                    });
+                        if !is_guarded {
+                            wildcard_occurrences.extend(pat_type.wildcard_occurrences);
+                        }
+                    }
 
-                // Once we have accumulated all the information about enum rows and wildcard
-                // occurrences, we can finally close the tails that need to be.
-                pattern::close_enums(enum_open_tails, &wildcard_occurrences, state);
+                    // Once we have accumulated all the information about enum rows and wildcard
+                    // occurrences, we can finally close the tails that need to be.
+                    pattern::close_enums(enum_open_tails, &wildcard_occurrences, state);
+
+                    if pat_unif_result.is_err() {
+                        break;
+                    }
+                }
 
                 // And finally fail if there was an error.
                 pat_unif_result.map_err(|err| err.into_typecheck_err(state, self.pos))?;
